@@ -109,6 +109,14 @@ pub fn judge(run: &Run, st: &mut Stats, opts: &Opts, text: &str, r: &Rendered, u
         if cl.from_ac_base {
             continue; // may be first-ranked through its auto-correct base: position not constrained
         }
+        if cl.translit && !cl.distances.is_empty() && !cl.distances.iter().any(|d| *d as i64 >= prev) {
+            // The transliteration is in dictionary.json and matches the pattern, but the engine did not
+            // FIND it as a dictionary word (its look-up is restricted to the sections of the first letter,
+            // e.g. "o`i" -> U+0987 lives in section "i"): then it is "the plain transliteration" and must
+            // come after every dictionary word (DESIGN 6b).
+            seen_translit_only = Some(i);
+            continue;
+        }
         if !cl.distances.is_empty() {
             if let Some(li) = seen_translit_only {
                 return Err(fail("dictionary-word-after-transliteration", format!("dictionary candidate {c:?} (index {i}) follows the plain transliteration (index {li})")));
